@@ -111,6 +111,31 @@ def injected(msg):
     return cls(msg)
 
 
+def _set_logging(level):
+    """ambient logging configuration of a run (scenario['log_level']): None = logging disabled (the harness default), otherwise the
+    level of the `esrally` loggers.  Records are formatted and thrown away; what the actors do must not depend on it."""
+    import logging
+
+    lg = logging.getLogger("esrally")
+    if level is None:
+        logging.disable(logging.CRITICAL)
+        lg.setLevel(logging.NOTSET)
+        return
+    if not any(isinstance(h, _FormattingNullHandler) for h in lg.handlers):
+        lg.addHandler(_FormattingNullHandler())
+    lg.propagate = False
+    lg.setLevel(getattr(logging, level))
+    logging.disable(logging.NOTSET)
+
+
+class _FormattingNullHandler(__import__("logging").Handler):
+    def emit(self, record):
+        try:
+            record.getMessage()  # evaluate the arguments as a real handler would
+        except Exception:  # a log call with broken arguments is not what this machinery is about
+            pass
+
+
 class SimPool:
     def __init__(self, sim, key):
         self.sim, self.key = sim, key
@@ -649,6 +674,7 @@ class Sim:
         from esrally.track import params as rparams
 
         self.scenario = scenario
+        _set_logging(scenario.get("log_level"))
         self.rng = random.Random(seed)
         self.clock = 0.0
         self.actors = {}
@@ -1118,6 +1144,7 @@ class Sim:
             finally:
                 asyncio.set_event_loop(None)
         self.executors.clear()
+        _set_logging(None)
 
     def run(self, max_events=200000, max_vtime=None, until=None):
         try:
